@@ -71,6 +71,59 @@ CLAIMED = {
          'the wrap analysis covers the only data-dependent hazard, sampling covers the rest.',
     technique='TLC exhaustive check of Table 2 + TLC-solved boundary inputs replayed in two build profiles + TLC trace validation of tuples',
     design='4/C15'),
+ 'C05': dict(
+    category='model_checking',
+    text='TLC enumerates every (F,T,Z,N,Al) in a box (plus directed larger shapes) and derives from Partition and the sub-block '
+         'rule of RFC 4.4.1.2 alone the exact source packet list; invariants on the spec (partition identities, every object byte '
+         'exactly once, only the tail of the last block padded). Every case is replayed: the real encoder\'s packet list must be '
+         'identical and the real decoder must return the object from those packets.',
+    note='Trusted: TLC; Data(i) formula shared by spec and harness. Exhaustive inside the box, directed outside.',
+    technique='TLC-enumerated configurations with expected packet lists, replayed on Encoder/Decoder (spec->impl)',
+    design='4/C05'),
+ 'C01': dict(
+    category='model_checking',
+    text='spec/Codec.tla: per block the set of received ESIs and a reconstructed flag; a block completes at the first delivery '
+         'after which AllSource or rank(A(K,S)) = L over GF(256) (TLC computes the rank from the RFC definitions). MC_Codec explores '
+         'every arrival order/duplication/clone point of a small universe exhaustively. Every call of the real Decoder in generated '
+         'histories is validated as a step of that machine and its bytes compared with the original.',
+    note='Trusted: TLC, frozen tables; exact rank for K\' <= 60 (quick) / 110 (thorough), learned-consistency mode above; packets '
+         'are the real encoder\'s (their content is C04).',
+    technique='TLC exhaustive model (MC_Codec) + TLC trace validation of real decoder histories against the Codec state machine',
+    design='4/C01'),
+ 'C02': dict(
+    category='model_checking',
+    text='At every call of SourceBlockDecoder::decode in sequences built to sit on the decoding threshold (K, K+1, K+2 symbols; '
+         'batches that trigger the GF(2)-only attempt and its fall-back; both matrix back-ends) Some/None must equal '
+         'AllSource or full rank as computed by TLC; in addition random K and K+1 subsets are decoded and every failure is '
+         'certified rank deficient by TLC, so both directions (lost decode / answer for an undecodable set) are exercised.',
+    note='Trusted: TLC rank oracle, frozen tables. Exact for K\' <= 60 (quick) / 110 (thorough).',
+    technique='TLC trace validation with a GF(256) rank oracle evaluated by TLC at every prefix',
+    design='4/C02'),
+ 'C03': dict(
+    category='exploration',
+    text='Statistical: 2.1*10^6 (quick) / 2.5*10^7 (thorough) random (K+h)-subsets decoded by the real decoder; TLC certifies every '
+         'reported failure as a genuine rank deficiency and checks the aggregated failure frequencies against the advertised '
+         'bounds in a postcondition that only applies at sample sizes where a correct implementation cannot exceed them by chance.',
+    note='A probability can only be sampled; fixed K list; random loss patterns only.',
+    technique='sampling with TLC-certified failures and TLC-checked rate bounds',
+    design='4/C03'),
+ 'C08': dict(
+    category='model_checking',
+    text='MC_Codec checks SetDetermined (answer is a function of the received sets), Stable, SameSetsSameAnswer over all paths of a '
+         'small universe. For each packet multiset 6-9 real histories (permutations, duplicates, batches, both APIs, clones, '
+         'post-completion deliveries) are validated against the same set-determined machine, so histories of one set that end '
+         'differently cannot both be accepted.',
+    note='As C01.',
+    technique='TLC exhaustive model + TLC trace validation of multiple histories per packet set',
+    design='4/C08'),
+ 'C18': dict(
+    category='model_checking',
+    text='Packet(b,X) is a function of block and ESI in the spec; windows, overlapping windows, single requests, independently '
+         'generated plans, the whole-object encoder and get_encoded_packets are validated by TLC: identifiers, order, distinctness, '
+         'and payload equal to the RFC oracle (TLC solve, K<=26) or to the first observation of that (b,X).',
+    note='Trusted: TLC; N=1 configurations.',
+    technique='TLC trace validation against a functional Packet(b, ESI) specification with RFC oracle',
+    design='4/C18'),
 }
 
 NOT_YET = 'check not built yet in this round (work in progress; see DESIGN.md section 8 for the order of work)'
@@ -122,7 +175,7 @@ def main():
 
 
 NA = {}
-HOOK_COMMITS = ['7b4caa9', '4fb854c']
+HOOK_COMMITS = ['7b4caa9', '4fb854c', '324160c']
 FIX_COMMITS = ['e1f7f98', '497f892', 'c3da831', 'ae71c22']
 
 if __name__ == '__main__':
